@@ -235,6 +235,15 @@ func (b *builder) attr(a *sp.Attr, fn func()) {
 			Attribute(name, args...)
 		}
 	}
+	if a.T.K == sp.KUnion {
+		// OneOf union (gRPC families): the alternatives are declared like attributes
+		OneOf(a.Name, func() {
+			for _, alt := range a.T.Attrs {
+				b.attr(alt, func() {})
+			}
+		})
+		return
+	}
 	if a.T.K == sp.KObject {
 		decl(a.Name, func() {
 			b.attrs(a.T.Attrs, a.T.Required, "")
